@@ -1,6 +1,6 @@
 import NodisVerif.Model.Block
 import NodisVerif.Proofs.BlockTrace
-import NodisVerif.Proofs.BlockProgCor
+import NodisVerif.Proofs.BlockProgPush
 /-
   C18 — BLPOP/BRPOP: return immediately when a listed key has an element (first key in argument
   order), otherwise wait; a push to a listed key reaches the waiter (no missed wake-up), timeout 0
@@ -431,6 +431,76 @@ theorem blockprog_no_missed_wakeup {σ : Sys} {es : List Ev} (h : Reach σ es) {
   intro k hk
   exact no_missed_push_trace hr hs hp (by rw [hbf, hb]) k (by rw [hk1]; exact hk)
 
+/-- NO MISSED WAKE-UP, ON PROGRAM STATES, FROM THE PUSH SIDE (no protocol event in the statement).  In every reachable
+    state, a thread at the `select` of blockingPop with an empty channel sleeps only on EMPTY lists - except for a list
+    whose push is still on its way to this very channel: a push thread p with that key that has appended and is about
+    to take the registry lock (p2), has it and is about to read the cList (p3), or is in its ForRange with t's channel
+    still ahead (p4, t ∈ todo).  Such a push cannot block (`blockprog_push_never_blocks`,
+    `blockprog_push_waits_only_for_running_holder`), so the wake-up arrives.  The invariant behind it (`Seen`, for every
+    key the thread has already looked at in the current round, at every pc of `look` and of the wait) is proved by
+    induction over the schedule; it needs that no command other than a push makes an empty list non-empty (`Call.env`). -/
+theorem blockprog_sleeper_has_seen_every_push {σ : Sys} {es : List Ev} (h : Reach σ es) {t : Tid}
+    (hpc : (σ.thr t).pc = .w1) (hb : σ.sh.full t = false) :
+    ∀ k ∈ (σ.thr t).keys, σ.sh.lists k = 0 ∨
+      ∃ p, (σ.thr p).key = k ∧ ((σ.thr p).pc = .p2 ∨ (σ.thr p).pc = .p3 ∨
+        ((σ.thr p).pc = .p4 ∧ t ∈ (σ.thr p).todo)) := by
+  obtain ⟨hS, hX⟩ := reach_seen h
+  intro k hk
+  have hi := hX t
+  simp only [idxOk, hpc] at hi
+  have : k ∈ looked (σ.thr t) := by
+    simp only [looked, hpc]
+    rw [List.take_of_length_le hi]; exact hk
+  exact hS t k this hb
+
+/-- the same inside a round of `look` and just before the wait: the keys already tried in this round (argument
+    positions below the loop index) -/
+theorem blockprog_looker_has_seen_every_push {σ : Sys} {es : List Ev} (h : Reach σ es) {t : Tid}
+    (hpc : (σ.thr t).pc = .l1 ∨ (σ.thr t).pc = .w0) (hb : σ.sh.full t = false) :
+    ∀ k ∈ (σ.thr t).keys.take (σ.thr t).i, σ.sh.lists k = 0 ∨ Pending σ t k := by
+  obtain ⟨hS, _⟩ := reach_seen h
+  intro k hk
+  refine hS t k ?_ hb
+  rcases hpc with hpc | hpc <;> simpa [looked, hpc] using hk
+
+/-- a push round starts with the WHOLE cList of its key (p3), sends to its head and drops exactly the head (p4:
+    `notify_origin`), and ends only when nothing is left: every channel registered for the key when the round begins
+    is sent to -/
+theorem blockprog_round_covers_registry {σ σ' : Sys} {t : Tid} {ch : Choice} {e : Option Ev}
+    (h : σ.step t ch = some (σ', e)) :
+    ((σ.thr t).pc = .p3 → (σ'.thr t).todo = σ.sh.regOf (σ.thr t).key ∨ σ.sh.regOf (σ.thr t).key = []) ∧
+    ((σ.thr t).pc = .p4 → (σ'.thr t).pc = .p5 → (σ'.thr t).todo = []) := by
+  unfold Sys.step at h
+  cases hs : tstep σ.sh t (σ.thr t) ch with
+  | none => simp [hs] at h
+  | some r =>
+    obtain ⟨s', l', e'⟩ := r
+    simp only [hs, Option.some.injEq, Prod.mk.injEq] at h
+    obtain ⟨rfl, rfl⟩ := h
+    constructor
+    · intro hpc
+      simp only [tstep, hpc] at hs
+      cases hr : σ.sh.registry (σ.thr t).key with
+      | none => right; simp [Shared.regOf, hr]
+      | some cl =>
+        simp only [hr, Option.some.injEq, Prod.mk.injEq] at hs
+        obtain ⟨_, rfl, _⟩ := hs
+        left; simp [Shared.regOf, hr]
+    · intro hpc hp5
+      simp only [tstep, hpc] at hs
+      cases htd : (σ.thr t).todo with
+      | nil =>
+        simp only [htd, Option.some.injEq, Prod.mk.injEq] at hs
+        obtain ⟨_, rfl, _⟩ := hs
+        simpa using htd
+      | cons c rest =>
+        simp only [htd, Option.some.injEq, Prod.mk.injEq] at hs
+        obtain ⟨_, rfl, _⟩ := hs
+        simp only [upd_self] at hp5 ⊢
+        split at hp5
+        · rename_i he; simpa using he
+        · simp at hp5
+
 /-- ... and a sleeping thread whose channel is full is not stuck: the receive is enabled, emits `wake` and starts a new
     look at ALL keys (pc l0) -/
 theorem blockprog_full_channel_wakes (σ : Sys) (t : Tid) (hpc : (σ.thr t).pc = .w1) (hb : σ.sh.full t = true) :
@@ -655,6 +725,23 @@ example : (exec {} ((9, { call := .env "a" 0 true }) :: (1, { call := .bpop ["b"
       (fun r => ((r.1.thr 1).pc, r.1.sh.regOf "a", r.1.sh.regOf "b", r.1.sh.bmu, r.2)) =
     some (.idle, [], [], {}, [.reg 1 "b", .reg 1 "a", .try_ 1 "b" false, .abort 1, .unreg 1 "b", .unreg 1 "a",
       .fin 1]) := by decide
+
+/-- the hypotheses of `blockprog_sleeper_has_seen_every_push` with the second disjunct: waiter 1 sleeps with an empty
+    channel, the push has appended (list length 1) and is at p2, about to take the registry lock -/
+example : (exec {} ((1, { call := .bpop ["a"] 0 }) :: steps 1 7 ++ (2, { call := .push "a" 1 }) :: steps 2 1)).map
+      (fun r => ((r.1.thr 1).pc, r.1.sh.full 1, r.1.sh.lists "a", (r.1.thr 2).pc, (r.1.thr 2).key)) =
+    some (.w1, false, 1, .p2, "a") := by decide
+
+/-- WHY RECORDED TRACES NEED `stepLoose`, and for which event: the hook of `notify` is called before the send, the hook
+    of `wake` after the receive.  Channel operations: send#1, receive, send#2 (into the empty buffer), receive.  Report
+    order when the second push's hook AND send slip in between the first receive and its `wake` hook: notify, notify,
+    wake, ..., block, wake.  The precise semantics rejects the second `wake` (after the first reported `wake` the
+    modelled buffer is empty), the token-counting `stepLoose` accepts it.  Only `wake` is affected: every other event is
+    checked by `step` itself in `stepLoose`. -/
+example : runAll [] [.reg 1 "a", .try_ 1 "a" false, .block 1 false, .notify 1 "a", .notify 1 "a", .wake 1,
+    .try_ 1 "a" false, .block 1 false, .wake 1] = none := by decide
+example : (runAllLoose [] [.reg 1 "a", .try_ 1 "a" false, .block 1 false, .notify 1 "a", .notify 1 "a", .wake 1,
+    .try_ 1 "a" false, .block 1 false, .wake 1]).isSome = true := by decide
 
 /-- blocked transitions are blocked: with timeout 0 and an empty channel the thread at the select cannot move, the
     timer cannot fire; a second registration cannot start while the first one holds the registry lock -/
